@@ -377,7 +377,9 @@ func tokens(s string) [][2]int {
 	return out
 }
 
-var junkBytes = []string{"\"", "'", "{", "}", ";", "+", "\\", "/", "*", "//", "/*", "*/", "\x00", "\xff", "\xc3", "\n", "\r\n", "\t", " ", "a", "é"}
+var junkBytes = []string{"\"", "'", "{", "}", ";", "+", "\\", "/", "*", "//", "/*", "*/", "\x00", "\xff", "\xc3", "\n", "\r\n", "\t", " ", "a", "é",
+	// a character the lexer treats specially next to a rune of 2, 3 and 4 bytes (widths differ: anything that backs up or peeks by "the last width" is exercised)
+	"+é", "+€", "+😀", "é+", "€+ ", " +é;", "\"é", "é\"", "'€", "/é", "é/", "/*é", "é*/", "//€", "*😀", "{é", "é}", ";€", "\\é", "é\\", "\xe2\x82", "\xf0\x9f\x98", "\u2028", "\ufeff", "\u00a0"}
 
 func (w world) RunCase(t *tape.Tape, st *super.Stats) *super.Violation {
 	inc := func(k string) {
